@@ -478,7 +478,7 @@ Proof.
       destruct (a_run_task_lost_strong (mkA (a_live a) q (a_now a) (a_bcast a)) t f S Hf Nf)
         as [H|(k & H & H')].
       * right. left. split; [|now left]. apply (Q (f_id f)); auto. rewrite Eq. now left.
-      * right. right. split; [now left|]. exists k. split; [rewrite Eq; now left|].
+      * right. right. split; [now left|]. exists k. split; [now left|].
         exists (a_live a). cbn [a_live] in H'. now repeat split.
     + unfold a_drain in Nf.
       destruct (fold_run_task_lost_strong _ (mkA (a_live a) [] (a_now a) (a_bcast a)) f S Hf Nf)
@@ -512,3 +512,377 @@ Proof.
   - right. right. split; [exact Ho|]. exists k. split; [|exact Hl].
     now apply gcq_head_provenance.
 Qed.
+
+(* frames have decidable equality, hence "is live" is decidable *)
+Lemma bytes_eq_dec (x y : bytes) : {x = y} + {x <> y}.
+Proof. apply list_eq_dec, N.eq_dec. Qed.
+
+Lemma ttl_eq_dec (x y : ttl) : {x = y} + {x <> y}.
+Proof. decide equality; apply N.eq_dec. Qed.
+
+Lemma frame_eq_dec (x y : frame) : {x = y} + {x <> y}.
+Proof.
+  pose proof N.eq_dec. pose proof bytes_eq_dec. pose proof ttl_eq_dec.
+  repeat decide equality.
+Qed.
+
+(* A frame without a time TTL, in a (context, topic) that never receives a head:K
+   frame, and that nobody removes explicitly, stays live for ever. *)
+Theorem forever_safe : forall now pre post f,
+  wf_run (pre ++ post) (a_empty now) ->
+  In f (a_live (after0 now pre)) ->
+  (forall ms, f_ttl f <> Some (Time ms)) ->
+  ~ In (ORemove (f_id f)) post ->
+  (forall p i f0 q g a' k,
+     pre ++ post = p ++ OAppend i f0 :: q ->
+     a_append (after0 now p) i f0 = (Ok g, a') ->
+     f_ctx g = f_ctx f -> f_topic g = f_topic f -> f_ttl g <> Some (Head k)) ->
+  In f (a_live (after0 now (pre ++ post))).
+Proof.
+  intros now pre post f. induction post as [|o post IH] using rev_ind;
+    intros W Hf Tf NR NH.
+  - now rewrite app_nil_r.
+  - rewrite app_assoc in *.
+    assert (IHf : In f (a_live (after0 now (pre ++ post)))).
+    { apply IH; auto.
+      - apply wf_run_app in W. tauto.
+      - intros H. apply NR. apply in_or_app. now left.
+      - intros p i f0 q g a' k E. apply (NH p i f0 (q ++ [o]) g a' k).
+        rewrite E, <- app_assoc. reflexivity. }
+    destruct (In_dec frame_eq_dec f (a_live (after0 now ((pre ++ post) ++ [o])))) as [Y|Nn];
+      [exact Y|exfalso].
+    destruct (retention now (pre ++ post) o f W (conj IHf Nn))
+      as [H|[[H _]|(_ & k & (p & i & f0 & q & g & a' & E & Ea & Cg & Tg & Tk) & _)]].
+    + apply NR. apply in_or_app. right. left. now symmetry.
+    + apply expired_time in H. destruct H as (ms & H). exact (Tf ms H).
+    + apply (NH p i f0 (q ++ [o]) g a' k); auto.
+      rewrite E, <- app_assoc. reflexivity.
+Qed.
+
+(* ---------------------------------------------------------------------------- *)
+(* G4. head:N bound once the collector has drained (C09) *)
+
+(* DIFFERENCE with the first draft: OReopen is excluded as well.  A restart empties
+   the queue (a_reopen starts from gcq = []), so pending head collections are
+   forgotten: append three head:1 frames to one topic, reopen: the queue is empty,
+   the newest frame carries head:1 and three frames are live. *)
+Definition wf4_op (a : astore) (o : op) : Prop :=
+  match o with
+  | OImport _ => False
+  | OReopen => False
+  | OAppend i _ => forallb (fun g => f_id g <? i) (a_live a) = true
+  | _ => True
+  end.
+
+Fixpoint wf4_run (ops : list op) (a : astore) : Prop :=
+  match ops with
+  | [] => True
+  | o :: r => wf4_op a o /\ wf4_run r (snd (a_step a o))
+  end.
+
+Definition pend (l : list frame) (q : list gctask) : Prop :=
+  forall g n, In g l -> f_ttl g = Some (Head n) ->
+    (length (filter (fun h => same_topic (f_ctx g) (f_topic g) h && (f_id h <=? f_id g)) l)
+     <= N.to_nat n)%nat
+    \/ In (GcCheckHead (f_ctx g) (f_topic g) n) q.
+
+Definition pending (a : astore) : Prop := pend (a_live a) (a_gcq a).
+
+Lemma filter_len_incl (p : frame -> bool) l l' :
+  sorted l' -> (forall h, In h l' -> p h = true -> In h l) ->
+  (length (filter p l') <= length (filter p l))%nat.
+Proof.
+  intros S H. apply NoDup_incl_length.
+  - apply NoDup_filter, sorted_NoDup, S.
+  - intros h Hh. apply filter_In in Hh. destruct Hh as [Hh Ph]. apply filter_In. auto.
+Qed.
+
+Lemma filter_len_andb {A} (p q : A -> bool) l :
+  (length (filter (fun h => p h && q h) l) <= length (filter p l))%nat.
+Proof.
+  induction l as [|x l IH]; cbn [filter]; [apply le_n|].
+  destruct (p x); cbn [andb]; [destruct (q x)|]; cbn [length]; lia.
+Qed.
+
+Lemma pend_shrink l q l' q' :
+  sorted l' -> (forall h, In h l' -> In h l) -> (forall t, In t q -> In t q') ->
+  pend l q -> pend l' q'.
+Proof.
+  intros S HL HQ P g n Hg Tg. destruct (P g n (HL _ Hg) Tg) as [L|R]; [left|right; auto].
+  eapply PeanoNat.Nat.le_trans; [apply (filter_len_incl _ l)|exact L]; auto.
+Qed.
+
+Lemma pend_task a t q :
+  sorted (a_live a) -> pend (a_live a) (t :: q) -> pend (a_live (a_run_task a t)) q.
+Proof.
+  intros S P g n Hg Tg. pose proof (a_run_task_sorted a t S) as S'.
+  destruct (P g n (a_run_task_in _ _ _ Hg) Tg) as [L|[E|R]].
+  - left. eapply PeanoNat.Nat.le_trans; [apply (filter_len_incl _ (a_live a))|exact L]; auto.
+    intros h Hh _. now apply a_run_task_in in Hh.
+  - left. subst t. cbn [a_run_task a_live].
+    eapply PeanoNat.Nat.le_trans; [apply filter_len_andb|]. now apply a_check_head_bound.
+  - now right.
+Qed.
+
+Lemma pend_fold q : forall a,
+  sorted (a_live a) -> pend (a_live a) q -> pend (a_live (fold_left a_run_task q a)) [].
+Proof.
+  induction q as [|t q IH]; intros a S P; cbn [fold_left]; [exact P|].
+  apply IH; [now apply a_run_task_sorted|now apply pend_task].
+Qed.
+
+Lemma app_state_gcq_mono a f t : In t (a_gcq a) -> In t (a_gcq (app_state a f)).
+Proof.
+  unfold app_state. destruct (f_ttl f) as [[| |ms|n]|]; cbn [a_gcq]; auto.
+  intros H. apply in_or_app. now left.
+Qed.
+
+Lemma pending_step a o :
+  sorted (a_live a) -> pending a -> wf4_op a o -> pending (snd (a_step a o)).
+Proof.
+  intros S P W. pose proof (a_step_sorted a o S) as S'. unfold pending in *.
+  destruct o as [i g|g|i|n| | | |l lim c|l lim c|i|t c].
+  - rewrite step_append_snd, a_append_eq in *. destruct (app_err a g); cbn [snd] in *;
+      [exact P|].
+    set (f := app_frame i g) in *. intros h n Hh Th.
+    apply app_state_live in Hh. destruct Hh as [->|Hh].
+    + right. unfold app_state. rewrite Th. cbn [a_gcq]. apply in_or_app. right. now left.
+    + destruct (P h n Hh Th) as [L|R]; [left|right; now apply app_state_gcq_mono].
+      eapply PeanoNat.Nat.le_trans; [apply (filter_len_incl _ (a_live a))|exact L]; auto.
+      intros x Hx Px. apply app_state_live in Hx. destruct Hx as [->|Hx]; [exfalso|exact Hx].
+      apply andb_true_iff in Px. destruct Px as [_ Px]. apply N.leb_le in Px.
+      cbn [wf4_op] in W. rewrite forallb_forall in W. specialize (W h Hh).
+      apply N.ltb_lt in W. unfold f, app_frame in Px. cbn [f_id] in Px. lia.
+  - destruct W.
+  - cbn [a_step snd a_remove_live a_live a_gcq] in *. apply (pend_shrink (a_live a) (a_gcq a)); auto.
+    intros h Hh. apply a_delete_in in Hh. tauto.
+  - exact P.
+  - cbn [a_step snd] in *. revert S'. unfold a_gc_step.
+    destruct (a_gcq a) as [|t q] eqn:Eq; intros S'; [now rewrite Eq|].
+    rewrite a_run_task_gcq. cbn [a_gcq].
+    apply (pend_task (mkA (a_live a) q (a_now a) (a_bcast a))); assumption.
+  - cbn [a_step snd] in *. rewrite a_drain_gcq. unfold a_drain.
+    apply (pend_fold (a_gcq a) (mkA (a_live a) [] (a_now a) (a_bcast a))); assumption.
+  - destruct W.
+  - rewrite step_readsync_snd, a_read_sync_snd in *. cbn [a_enqueue a_live a_gcq] in *.
+    apply (pend_shrink (a_live a) (a_gcq a)); auto. intros t Ht. apply in_or_app. now left.
+  - rewrite step_read_snd, a_read_hist_snd in *. cbn [a_enqueue a_live a_gcq] in *.
+    apply (pend_shrink (a_live a) (a_gcq a)); auto. intros t Ht. apply in_or_app. now left.
+  - exact P.
+  - exact P.
+Qed.
+
+Lemma pending_empty now : pending (a_empty now).
+Proof. intros g n []. Qed.
+
+Lemma pending_run ops : forall a,
+  sorted (a_live a) -> pending a -> wf4_run ops a -> pending (arun ops a).
+Proof.
+  induction ops as [|o r IH]; intros a S P W; cbn [arun]; [exact P|].
+  destruct W as [W1 W2]. apply IH; [now apply a_step_sorted|now apply pending_step|exact W2].
+Qed.
+
+Theorem pending_after0 : forall now ops,
+  wf4_run ops (a_empty now) -> pending (after0 now ops).
+Proof.
+  intros now ops W. apply pending_run; [constructor|apply pending_empty|exact W].
+Qed.
+
+Theorem head_bound_after_drain : forall now ops c t g n,
+  wf4_run ops (a_empty now) ->
+  let a := after0 now ops in
+  a_gcq a = [] -> a_head a t c = Some g -> f_ttl g = Some (Head n) ->
+  (length (filter (same_topic c t) (a_live a)) <= N.to_nat n)%nat.
+Proof.
+  intros now ops c t g n W a Eq Hh Tg.
+  assert (S : sorted (a_live a)) by apply after0_sorted.
+  pose proof (pending_after0 now ops W) as P. fold a in P.
+  destruct (a_head_some _ _ _ _ S Hh) as (Hg & Cg & Ttg & M).
+  destruct (P g n Hg Tg) as [L|R]; [|rewrite Eq in R; destruct R].
+  assert (E : filter (same_topic c t) (a_live a) =
+              filter (fun h => same_topic (f_ctx g) (f_topic g) h && (f_id h <=? f_id g))
+                     (a_live a)).
+  { apply filter_ext_in. intros h Hh'. rewrite Cg, Ttg.
+    destruct (same_topic c t h) eqn:T; cbn [andb]; [|reflexivity].
+    symmetry. apply N.leb_le. apply same_topic_true in T. destruct T. now apply M. }
+  rewrite E. exact L.
+Qed.
+
+(* ---------------------------------------------------------------------------- *)
+(* A history-level sufficient condition for [wf_run]: the clock never goes back and
+   no id is ever handed out twice (what scru128 guarantees). *)
+
+Definition op_id (o : op) : option N :=
+  match o with OAppend i _ => Some i | OImport f => Some (f_id f) | _ => None end.
+
+Definition see (seen : list N) (o : op) : list N :=
+  match op_id o with Some i => i :: seen | None => seen end.
+
+Definition wfh_op (seen : list N) (a : astore) (o : op) : Prop :=
+  match o with
+  | OSetNow n => a_now a <= n
+  | _ => match op_id o with Some i => ~ In i seen | None => True end
+  end.
+
+Fixpoint wfh_run (seen : list N) (ops : list op) (a : astore) : Prop :=
+  match ops with
+  | [] => True
+  | o :: r => wfh_op seen a o /\ wfh_run (see seen o) r (snd (a_step a o))
+  end.
+
+Definition ids_seen (seen : list N) (a : astore) : Prop :=
+  (forall f, In f (a_live a) -> In (f_id f) seen) /\
+  (forall i, In (GcRemove i) (a_gcq a) -> In i seen).
+
+Lemma step_gcq_remove a o i :
+  In (GcRemove i) (a_gcq (snd (a_step a o))) ->
+  In (GcRemove i) (a_gcq a) \/ exists f, In f (a_live a) /\ f_id f = i.
+Proof.
+  intros H.
+  destruct o as [j g|g|j|n| | | |l lim c|l lim c|j|t c].
+  - rewrite step_append_snd, a_append_eq in H. destruct (app_err a g); cbn [snd] in H;
+      [now left|].
+    apply app_state_gcq in H. destruct H as [H|(n & _ & H)]; [now left|discriminate].
+  - rewrite step_import_snd in H. unfold a_import in H.
+    destruct (has_nul (f_topic g)); cbn [snd a_gcq] in H; now left.
+  - now left.
+  - now left.
+  - cbn [a_step snd] in H. revert H. unfold a_gc_step.
+    destruct (a_gcq a) as [|t0 q] eqn:Eq; intros H.
+    + cbv iota in H. rewrite Eq in H. destruct H.
+    + rewrite a_run_task_gcq in H. cbn [a_gcq] in H. left. now right.
+  - cbn [a_step snd] in H. rewrite a_drain_gcq in H. destruct H.
+  - cbn [a_step snd] in H. unfold a_reopen in H. rewrite a_read_sync_snd in H.
+    cbn [a_enqueue a_gcq app] in H.
+    apply (rs_tasks_live (mkA (a_live a) [] (a_now a) [])) in H.
+    destruct H as (f & Hf & _ & E). inversion E. right. now exists f.
+  - rewrite step_readsync_snd, a_read_sync_snd in H. cbn [a_enqueue a_gcq] in H.
+    apply in_app_or in H. destruct H as [H|H]; [now left|].
+    apply rs_tasks_live in H. destruct H as (f & Hf & _ & E). inversion E. right. now exists f.
+  - rewrite step_read_snd, a_read_hist_snd in H. cbn [a_enqueue a_gcq] in H.
+    apply in_app_or in H. destruct H as [H|H]; [now left|].
+    apply rh_tasks_live in H. destruct H as (f & Hf & _ & E). inversion E. right. now exists f.
+  - now left.
+  - now left.
+Qed.
+
+Lemma see_incl seen o i : In i seen -> In i (see seen o).
+Proof. unfold see. destruct (op_id o); [now right|auto]. Qed.
+
+Lemma ids_seen_step seen a o : ids_seen seen a -> ids_seen (see seen o) (snd (a_step a o)).
+Proof.
+  intros [HL HQ]. split.
+  - intros f Hf. destruct (step_live_provenance _ _ _ Hf) as [H|[->|(i & f0 & a' & -> & E)]].
+    + apply see_incl. now apply HL.
+    + now left.
+    + destruct (a_append_ok_fields _ _ _ _ _ E) as (Ei & _). left. now symmetry.
+  - intros i Hi. apply see_incl.
+    destruct (step_gcq_remove _ _ _ Hi) as [H|(f & Hf & <-)]; [now apply HQ|now apply HL].
+Qed.
+
+Lemma fresh_intro i l : (forall f, In f l -> f_id f <> i) -> fresh i l = true.
+Proof.
+  intros H. unfold fresh. apply forallb_forall. intros f Hf.
+  apply negb_true_iff, N.eqb_neq. now apply H.
+Qed.
+
+Lemma wfh_op_wf seen a o : ids_seen seen a -> wfh_op seen a o -> wf_op a o.
+Proof.
+  intros [HL HQ] W.
+  destruct o as [i g|g|i|n| | | |l lim c|l lim c|i|t c]; cbn [wf_op]; try exact I.
+  - cbn [wfh_op op_id] in W. split.
+    + apply fresh_intro. intros f Hf E. apply W. rewrite <- E. now apply HL.
+    + intros H. apply W. now apply HQ.
+  - cbn [wfh_op op_id] in W. split.
+    + apply fresh_intro. intros f Hf E. apply W. rewrite <- E. now apply HL.
+    + intros H. apply W. now apply HQ.
+  - exact W.
+Qed.
+
+Lemma wfh_run_wf_gen ops : forall seen a,
+  ids_seen seen a -> wfh_run seen ops a -> wf_run ops a.
+Proof.
+  induction ops as [|o r IH]; intros seen a Hs W; cbn [wf_run]; [exact I|].
+  destruct W as [W1 W2]. split; [now apply (wfh_op_wf seen)|].
+  apply (IH (see seen o)); [now apply ids_seen_step|exact W2].
+Qed.
+
+Theorem wfh_run_wf : forall now ops, wfh_run [] ops (a_empty now) -> wf_run ops (a_empty now).
+Proof.
+  intros now ops. apply wfh_run_wf_gen. split; [intros f []|intros i []].
+Qed.
+
+(* ---------------------------------------------------------------------------- *)
+(* Refutation witnesses for the two hypotheses that had to be strengthened. *)
+
+(* (a) freshness w.r.t. the live list alone does not give retention *)
+Definition wf_op_weak (a : astore) (o : op) : Prop :=
+  match o with
+  | OSetNow n => a_now a <= n
+  | OImport f => fresh (f_id f) (a_live a) = true
+  | OAppend i _ => fresh i (a_live a) = true
+  | _ => True
+  end.
+
+Fixpoint wf_run_weak (ops : list op) (a : astore) : Prop :=
+  match ops with
+  | [] => True
+  | o :: r => wf_op_weak a o /\ wf_run_weak r (snd (a_step a o))
+  end.
+
+Definition cx_frame (t : option ttl) : frame := mkFrame 0 0 [97] None None t.
+
+Definition cx_ops1 : list op :=
+  [OAppend 5 (cx_frame (Some (Time 1))); OSetNow 10; OReadSync None None None;
+   ORemove 5; OAppend 5 (cx_frame None)].
+
+(* the frame appended last has no TTL, is not removed and no head frame exists at
+   all, and yet the drain collects it *)
+Example retention_needs_queue_freshness :
+  let g := mkFrame 5 0 [97] None None None in
+  wf_run_weak (cx_ops1 ++ [ODrain]) (a_empty 0) /\
+  lost (after0 0 cx_ops1) (after0 0 (cx_ops1 ++ [ODrain])) g /\
+  expired (a_now (after0 0 cx_ops1)) g = false.
+Proof.
+  vm_compute. repeat split; try reflexivity; try discriminate.
+  - now left.
+  - intros [].
+Qed.
+
+(* (b) a restart forgets queued head collections *)
+Definition wf4_op_weak (a : astore) (o : op) : Prop :=
+  match o with
+  | OImport _ => False
+  | OAppend i _ => forallb (fun g => f_id g <? i) (a_live a) = true
+  | _ => True
+  end.
+
+Fixpoint wf4_run_weak (ops : list op) (a : astore) : Prop :=
+  match ops with
+  | [] => True
+  | o :: r => wf4_op_weak a o /\ wf4_run_weak r (snd (a_step a o))
+  end.
+
+Definition cx_ops2 : list op :=
+  [OAppend 1 (cx_frame (Some (Head 1))); OAppend 2 (cx_frame (Some (Head 1)));
+   OAppend 3 (cx_frame (Some (Head 1))); OReopen].
+
+Example head_bound_needs_no_reopen :
+  let a := after0 0 cx_ops2 in
+  wf4_run_weak cx_ops2 (a_empty 0) /\ a_gcq a = [] /\
+  a_head a [97] 0 = Some (mkFrame 3 0 [97] None None (Some (Head 1))) /\
+  length (filter (same_topic 0 [97]) (a_live a)) = 3%nat.
+Proof. vm_compute. repeat split; reflexivity. Qed.
+
+Print Assumptions live_provenance.
+Print Assumptions gcq_remove_expired.
+Print Assumptions gcq_head_provenance.
+Print Assumptions retention.
+Print Assumptions forever_safe.
+Print Assumptions expired_collected.
+Print Assumptions expired_collected_hist.
+Print Assumptions pending_after0.
+Print Assumptions head_bound_after_drain.
+Print Assumptions wfh_run_wf.
+Print Assumptions retention_needs_queue_freshness.
+Print Assumptions head_bound_needs_no_reopen.
